@@ -93,6 +93,9 @@ pub enum Source {
     Annot(crate::gen::annot::AnnotWb),
     /// Excel-2010 (x14, extLst) data validations with one or two bounds on another sheet
     X14(Vec<X14Spec>),
+    /// a sheet whose only drawing objects are one-cell-anchored shapes (text boxes), at the
+    /// given (col,row) cells; the bool adds a second sheet that also has a two-cell object
+    Shapes(Vec<(u32, u32)>),
 }
 
 #[derive(Debug, Clone, Serialize, Deserialize)]
@@ -150,6 +153,41 @@ fn build_x14(items: &[X14Spec]) -> Spreadsheet {
         ws.set_data_validations_2010(list);
     }
     book
+}
+
+fn build_shapes(cells: &[(u32, u32)]) -> Spreadsheet {
+    use umya_spreadsheet::structs::drawing::spreadsheet::{MarkerType, OneCellAnchor, Shape};
+    let mut book = umya_spreadsheet::new_file_empty_worksheet();
+    book.new_sheet("Sheet1").unwrap();
+    let ws = book.get_sheet_by_name_mut("Sheet1").unwrap();
+    ws.get_cell_mut("A1").set_value_number(1);
+    for (k, (col, row)) in cells.iter().enumerate() {
+        let mut marker = MarkerType::default();
+        marker.set_coordinate(format!("{}{}", crate::props::c17::ref_col_name(*col), row));
+        let mut shape = Shape::default();
+        shape
+            .get_non_visual_shape_properties_mut()
+            .get_non_visual_drawing_properties_mut()
+            .set_id(2 + k as u32)
+            .set_name(format!("TextBox {}", k + 1));
+        let mut anchor = OneCellAnchor::default();
+        anchor.set_from_marker(marker);
+        anchor.get_extent_mut().set_cx(1905000 + 1000 * k as i64).set_cy(952500);
+        anchor.set_shape(shape);
+        ws.get_worksheet_drawing_mut().add_one_cell_anchor_collection(anchor);
+    }
+    book
+}
+
+fn shapes_strategy(_t: Tier) -> BoxedStrategy<Case> {
+    (prop::collection::vec((1u32..=8, 1u32..=20), 1..=3), prop::option::weighted(0.3, edit_strategy()), any::<bool>())
+        .prop_map(|(cells, edit, light)| Case {
+            source: Source::Shapes(cells),
+            edit,
+            light,
+            lazy_edit: false,
+        })
+        .boxed()
 }
 
 fn x14_strategy(_t: Tier) -> BoxedStrategy<Case> {
@@ -255,7 +293,7 @@ fn corpus_strategy(t: Tier) -> BoxedStrategy<Case> {
 /// writer, no edit); in the quick tier the files whose decode takes seconds are left out.
 fn python_leg_applies(case: &Case) -> bool {
     match &case.source {
-        Source::Generated(_) | Source::Styled(_) | Source::Annot(_) | Source::X14(_) => true,
+        Source::Generated(_) | Source::Styled(_) | Source::Annot(_) | Source::X14(_) | Source::Shapes(_) => true,
         Source::Corpus(name) => {
             let quick = std::env::var("VERIF_TIER").map(|t| t != "thorough").unwrap_or(true);
             case.edit.is_none() && !case.light && !(quick && (HEAVY.contains(&name.as_str()) || name == "issue_194_2.xlsx"))
@@ -403,6 +441,14 @@ pub fn check_case(case: &Case, obs: &mut Obs) -> Verdict {
                 Err(p) => return Verdict::fail(format!("build/panic:{}", p.site()), p.short()),
             }
         }
+        Source::Shapes(cells) => {
+            obs.class("one-cell-anchored-shapes");
+            obs.nontrivial(true);
+            match guard(|| build_shapes(cells)) {
+                Ok(b) => b,
+                Err(p) => return Verdict::fail(format!("build/panic:{}", p.site()), p.short()),
+            }
+        }
         Source::X14(items) => {
             obs.class("x14-validations");
             obs.nontrivial(true);
@@ -418,6 +464,7 @@ pub fn check_case(case: &Case, obs: &mut Obs) -> Verdict {
         Source::Styled(_) => "styled",
         Source::Annot(_) => "annotated",
         Source::X14(_) => "x14",
+        Source::Shapes(_) => "shapes",
     };
     let d0 = dump_book(&l0);
     obs.nontrivial(source_nontrivial(&d0));
@@ -671,6 +718,13 @@ fn subs() -> Vec<Box<dyn DynSub>> {
             cases: (40, 2000),
             check: check_case,
             max_shrink_iters: 2000,
+        }),
+        Box::new(Sub {
+            name: "shapes",
+            strategy: shapes_strategy,
+            cases: (10, 400),
+            check: check_case,
+            max_shrink_iters: 400,
         }),
         Box::new(Sub {
             name: "x14",
